@@ -381,6 +381,62 @@ def small_scope(ctx, pool_ref):
 # struct dataclasses
 
 
+def run_dict_in_sequence(ctx, i, rng):
+  """A dict nested inside a list / tuple VALUE of the source: it is a mutable nested dict like any other, so the FrozenDict must
+  neither share it with the source nor hand it out raw. Kept in its own stream (own mechanisms) - see known finding C15-dict-in-sequence."""
+  from flax.core import FrozenDict, freeze, unfreeze
+  kind = ['list', 'tuple', 'list_in_dict', 'tuple_of_list'][i % 4]
+  via = ['FrozenDict', 'freeze'][(i // 4) % 2]
+  depth = (i // 8) % 2
+  desc = dict(container=kind, via=via, depth=depth)
+  with ctx.case('dict_in_sequence', i, desc, nontrivial=True):
+    def mk():
+      inner = {'b': 1, 'c': {'d': 2}}
+      seq = {'list': [inner, 7], 'tuple': (inner, 7), 'list_in_dict': [inner], 'tuple_of_list': ([inner],)}[kind]
+      src = {'a': seq, 'k': 0}
+      if kind == 'list_in_dict':
+        src = {'a': {'x': seq}, 'k': 0}
+      for _ in range(depth):
+        src = {'outer': src}
+      return src, inner
+
+    def reach(obj):
+      for _ in range(depth):
+        obj = obj['outer']
+      a = obj['a']
+      if kind == 'list_in_dict':
+        a = a['x']
+      if kind == 'tuple_of_list':
+        a = a[0]
+      return a[0]
+
+    src, inner = mk()
+    fd = FrozenDict(src) if via == 'FrozenDict' else freeze(src)
+    g0 = golden(fd)
+    ctx.op('FrozenDict(dict inside %s)' % kind)
+    # 1. mutate the source's inner dict
+    inner['b'] = 'CHANGED'
+    inner['c']['d'] = 'CHANGED'
+    ctx.check(golden(fd) == g0, 'aliasing:dict_inside_sequence:shared_with_source', lambda: dict(case=desc, now=repr(golden(fd))[:200]))
+    # 2. mutate what indexing returns
+    src, inner = mk()
+    fd = FrozenDict(src) if via == 'FrozenDict' else freeze(src)
+    g0 = golden(fd)
+    got = reach(fd)
+    try:
+      got['b'] = 'CHANGED'
+    except Exception:  # noqa: BLE001 - an immutable view is fine
+      pass
+    ctx.check(golden(fd) == g0, 'aliasing:dict_inside_sequence:indexing_returns_internal_dict', lambda: dict(case=desc, returned_type=type(got).__name__))
+    # 3. unfreeze gives an independent copy
+    src, inner = mk()
+    fd = FrozenDict(src) if via == 'FrozenDict' else freeze(src)
+    g0 = golden(fd)
+    u = unfreeze(fd)
+    reach(u)['b'] = 'CHANGED'
+    ctx.check(golden(fd) == g0, 'aliasing:dict_inside_sequence:unfreeze_shares', lambda: dict(case=desc))
+
+
 def make_struct(layout):
   """layout: (n_fields, static_mask, default_mask, inherit) -> class, field names, static names."""
   from flax import struct
@@ -512,6 +568,8 @@ def run(ctx):
       ops = run_history(ctx, rng, n_ops, pool_ref)
       ctx.distinct.add(repr(ops))
   small_scope(ctx, pool_ref)
+  for i in ctx.indices(16, 'dict_in_sequence'):
+    run_dict_in_sequence(ctx, i, ctx.rng('dict_in_sequence', i))
 
   layouts = []
   for n in range(1, 6):
